@@ -20,7 +20,7 @@ from engine.pyvc.values import *
 from engine.pyvc import models
 from engine.pyvc.models import SetList, register
 from engine.pyvc.loops import LoopSpec
-from engine.pyvc.harness import toolkit, raw, where, new_engine, run_paths, path_obligations, register_fn, note_engine, qualname
+from engine.pyvc.harness import toolkit, raw, where, new_engine, run_paths, path_obligations, register_fn, note_engine, qualname, exc_note, sect
 from contracts.py import trx as T
 from contracts.py.common import snapshot, attr, mk_sock, GhostSocket
 from contracts.py.tokens import IntTok
@@ -136,12 +136,12 @@ def mk_self(E, poweron, fh_set, own_clock, gen_running):
 
 def build(run, prop=ID):
     E = new_engine()
-    build_handler(run, prop, E)
-    build_ready_and_power_cmds(run, prop, E)
-    build_init(run, prop, E)
-    build_wiring(run, prop, E)
-    build_trx_list(run, prop, E)
-    build_pwr_lemma(run, prop)
+    sect(run, build_handler, run, prop, E)
+    sect(run, build_ready_and_power_cmds, run, prop, E)
+    sect(run, build_init, run, prop, E)
+    sect(run, build_wiring, run, prop, E)
+    sect(run, build_trx_list, run, prop, E)
+    sect(run, build_pwr_lemma, run, prop)
     note_engine(run, E)
     run.assume("CLCKGen.start()/stop() start/join the worker thread (threading assumed); the worker stays alive until stopped")
     run.assume("children of a transceiver are pairwise distinct and distinct from it (TRXList.add_trx); clock links are duplicate-free (invariant, re-proved)")
@@ -215,7 +215,7 @@ def build_handler(run, prop, E):
                     if out[0] == "cut":
                         continue
                     if out[0] == "raise":
-                        run.add(Obligation(prop, qualname(f), "never_raises", p.pc, z3.BoolVal(False), kind="noexc", case=cs + "," + out[1].cls.__name__, where=where(f), tag=tag))
+                        run.add(Obligation(prop, qualname(f), "never_raises", p.pc, z3.BoolVal(False), kind="noexc", note=exc_note(out[1]), case=cs + "," + out[1].cls.__name__, where=where(f), tag=tag))
                         continue
                     n_exit += 1
                     t = ctx["self"]
@@ -292,7 +292,7 @@ def build_ready_and_power_cmds(run, prop, E):
             for p, ctx, out in run_paths(E, setup, lambda E, ctx, verb=verb: E.call(pc, [ctx["self"].attrs["ctrl_if"], [verb]])):
                 tag = {"what": "powercmd", "verb": verb}
                 if out[0] == "raise":
-                    run.add(Obligation(prop, qualname(pc), "never_raises", p.pc, z3.BoolVal(False), kind="noexc", case=cs + "," + out[1].cls.__name__, where=where(pc), tag=tag))
+                    run.add(Obligation(prop, qualname(pc), "never_raises", p.pc, z3.BoolVal(False), kind="noexc", note=exc_note(out[1]), case=cs + "," + out[1].cls.__name__, where=where(pc), tag=tag))
                     continue
                 calls = p.ghost.get("handler", [])
                 t = ctx["self"]
@@ -493,7 +493,7 @@ def build_trx_list(run, prop, E):
         if out[0] == "cut":
             continue
         if out[0] == "raise":
-            run.add(Obligation(prop, qualname(ff), "never_raises", p.pc, z3.BoolVal(False), kind="noexc", case=out[1].cls.__name__, where=where(ff), tag=tag))
+            run.add(Obligation(prop, qualname(ff), "never_raises", p.pc, z3.BoolVal(False), kind="noexc", note=exc_note(out[1]), case=out[1].cls.__name__, where=where(ff), tag=tag))
             continue
         r = out[1]
         if r is None:
